@@ -1,7 +1,7 @@
 #!/bin/bash
 # run each seeded change against the registered check of its property; write seeded/<seed>/result.json
 cd /verif
-for seed in $(ls seeded); do
+for seed in ${@:-$(ls seeded)}; do
   id=${seed%-*}
   patch=/verif/seeded/$seed/patch.diff
   cd /repo; if ! git diff --quiet; then echo "/repo dirty"; exit 2; fi
